@@ -54,13 +54,21 @@ def _shaped(fn: Any, k: int) -> Any:
     """The same callback as a plain function, a functools.partial or a callable object."""
     import functools
 
-    if k % 3 == 1:
+    if k % 5 == 1:
         return functools.partial(fn)
-    if k % 3 == 2:
+    if k % 5 == 2:
         class _Callable:
             def __call__(self) -> Any:
                 return fn()
         return _Callable()
+    if k % 5 == 3:
+        class _EmptyCallable:  # a callable whose truth value is False
+            def __len__(self) -> int:
+                return 0
+
+            def __call__(self) -> Any:
+                return fn()
+        return _EmptyCallable()
     return fn
 
 
